@@ -94,12 +94,27 @@ pub fn write_package(bins: &[BinSpec], derives: &[DeriveSpec]) {
          match a[1].as_str() {\n        \"many\" => varlink_generator::cargo_build_many(&a[3..]),\n        \"one\" => varlink_generator::cargo_build(&a[3]),\n        \
          \"tosource\" => varlink_generator::cargo_build_tosource(&a[3], false),\n        _ => std::process::exit(3),\n    }\n}\n",
     );
-    // build.rs: the real build helper on every definition the generator handles
-    let mut b = String::from("// written by vharness (suite gen)\nfn main() {\n    varlink_generator::cargo_build_many::<&str>(&[\n");
+    // build.rs: the real build helper on every definition the generator handles.  `cargo_build_many` ends the process
+    // on failure, so it runs in a child (this same build script re-executed): a failure of the helper on these inputs
+    // (all accepted by `generate` in-process) is an OBSERVATION (helper-status.txt), not a broken probe build; the
+    // files are then produced one by one so that everything else can still be observed.
+    let mut b = String::from(
+        "// written by vharness (suite gen)\nfn main() {\n    let args: Vec<String> = std::env::args().collect();\n    \
+         if args.len() > 1 && args[1] == \"--child\" {\n        varlink_generator::cargo_build_many(&args[2..]);\n        return;\n    }\n    \
+         let files: Vec<&str> = vec![\n",
+    );
     for x in bins {
         b.push_str(&format!("        \"idl/{}.varlink\",\n", x.stem));
     }
-    b.push_str("    ]);\n    println!(\"cargo:rerun-if-changed=build.rs\");\n}\n");
+    b.push_str(
+        "    ];\n    let exe = std::env::current_exe().unwrap();\n    \
+         let run = |fs: &[&str]| std::process::Command::new(&exe).arg(\"--child\").args(fs).status().map(|s| s.success()).unwrap_or(false);\n    \
+         let mut status = String::from(\"ok\");\n    \
+         if !run(&files) {\n        status = String::from(\"failed\");\n        for f in &files {\n            if !run(&[*f]) {\n                status.push_str(\" \");\n                status.push_str(f);\n            }\n        }\n    }\n    \
+         let dir = std::env::var(\"CARGO_MANIFEST_DIR\").unwrap();\n    \
+         std::fs::write(format!(\"{}/helper-status.txt\", dir), status).unwrap();\n    \
+         println!(\"cargo:rerun-if-changed=build.rs\");\n}\n",
+    );
     write_if_changed(&root.join("build.rs"), &b);
     // sources of earlier batches
     let keep: std::collections::HashSet<String> =
@@ -432,4 +447,9 @@ pub fn scan_items(src: &str) -> (Vec<(String, String)>, Vec<(String, Vec<String>
         }
     }
     (items, traits)
+}
+
+/// outcome of `cargo_build_many` on the whole batch inside the probe package's build script: "ok" | "failed [files…]"
+pub fn helper_status() -> String {
+    std::fs::read_to_string(work_dir().join("helper-status.txt")).unwrap_or_else(|_| "unknown".into())
 }
